@@ -111,6 +111,7 @@ type Interp struct {
 
 	panicking  *goPanic
 	recovered  bool
+	recoverAt  int // call depth at which recover() is effective (the deferred function's own frame)
 	enumCache  map[types.Type][]enumConst
 	CallTrace  []string
 	TraceCalls bool
@@ -452,20 +453,20 @@ func (in *Interp) runFrame(fr *frame, start *ssa.BasicBlock) (ret Value) {
 			panic(e)
 		}
 		// run deferred calls while panicking
-		savedP, savedR := in.panicking, in.recovered
-		in.panicking, in.recovered = gp, false
+		savedP, savedR, savedAt := in.panicking, in.recovered, in.recoverAt
+		in.panicking, in.recovered, in.recoverAt = gp, false, in.depth+1
 		func() {
 			defer func() {
 				// a panic inside a deferred call replaces the current one
 				if e2 := recover(); e2 != nil {
-					in.panicking, in.recovered = savedP, savedR
+					in.panicking, in.recovered, in.recoverAt = savedP, savedR, savedAt
 					panic(e2)
 				}
 			}()
 			in.runDefers(fr)
 		}()
 		rec := in.recovered
-		in.panicking, in.recovered = savedP, savedR
+		in.panicking, in.recovered, in.recoverAt = savedP, savedR, savedAt
 		if !rec {
 			panic(gp)
 		}
@@ -734,9 +735,21 @@ func (in *Interp) store(p Value, val Value) {
 			x.Obj.Val = val
 			return
 		}
+		if sv, ok := x.Obj.Val.(*Sym); ok {
+			if ex := expandSymStruct(sv); ex != nil {
+				x.Obj.Val = ex
+			}
+		}
 		v := x.Obj.Val
 		for k, i := range x.Path {
 			last := k == len(x.Path)-1
+			if sa, ok := v.(*StructV); ok && !last {
+				if sv, ok := sa.F[i].(*Sym); ok {
+					if ex := expandSymStruct(sv); ex != nil {
+						sa.F[i] = ex
+					}
+				}
+			}
 			switch a := v.(type) {
 			case *StructV:
 				if last {
@@ -765,6 +778,23 @@ func (in *Interp) store(p Value, val Value) {
 	default:
 		in.Undecided("store to %s", Show(p))
 	}
+}
+
+// expandSymStruct turns an opaque struct value into a struct of opaque fields (so that single fields
+// can be overwritten).
+func expandSymStruct(s *Sym) *StructV {
+	if s.T == nil {
+		return nil
+	}
+	st, ok := s.T.Underlying().(*types.Struct)
+	if !ok {
+		return nil
+	}
+	sv := &StructV{T: s.T, F: make([]Value, st.NumFields())}
+	for i := 0; i < st.NumFields(); i++ {
+		sv.F[i] = &Sym{Expr: s.Name() + "." + st.Field(i).Name(), T: st.Field(i).Type()}
+	}
+	return sv
 }
 
 // --- atoms -----------------------------------------------------------------
@@ -1022,8 +1052,13 @@ func (in *Interp) builtin(name string, c *ssa.CallCommon, args []Value, fr *fram
 		if isNil(args[0]) {
 			return nil
 		}
+		if sm, ok := args[0].(*Sym); ok {
+			in.Effect("delete(%s,%s)", sm.Name(), Show(args[1]))
+			return nil
+		}
 	case "recover":
-		if in.panicking != nil && !in.recovered {
+		// recover() stops a panic only when called directly by the deferred function
+		if in.panicking != nil && !in.recovered && in.depth == in.recoverAt {
 			in.recovered = true
 			v := in.panicking.val
 			return v
@@ -2002,6 +2037,17 @@ func (in *Interp) CallValue(c *Closure, args []Value) Value {
 		return in.Call(c.Fn, args)
 	}
 	return in.callClosure(c, args)
+}
+
+// RunHandler calls a deferred function as if the goroutine were panicking with val: recover() inside
+// it returns val. It reports whether the handler recovered (absorbed) the panic; a panic raised by
+// the handler itself propagates as usual.
+func (in *Interp) RunHandler(c *Closure, args []Value, val Value) (recovered bool) {
+	savedP, savedR, savedAt := in.panicking, in.recovered, in.recoverAt
+	in.panicking, in.recovered, in.recoverAt = &goPanic{val: val}, false, in.depth+1
+	defer func() { in.panicking, in.recovered, in.recoverAt = savedP, savedR, savedAt }()
+	in.CallValue(c, args)
+	return in.recovered
 }
 
 // GlobalPtr returns a pointer to a package-level variable (running the package initialiser first).
